@@ -93,6 +93,32 @@ def gen_program(rnd):
         lines.append("T.assert_eq(if_then_else(%s, A, A2))" % cnd)
         lines.append("r%d = S[%s] + D[0] * 2 + M[%d] + T[%s] + 0" % (nres, index(0), shape[0] - 1, index(0)))
         nres += 1
+    if two_d and shape[0] > 1 and rnd.random() < 0.35:
+        # a row read with a secret index stored at a public position, then written through a tuple index
+        kinds.add("row-copy-then-tuple-write")
+        k0 = rnd.randint(0, shape[0] - 1)
+        lines.append("A[%d] = A[%s]" % (k0, index(0)))
+        lines.append("A[%d, %s] = %s" % (k0, index(1), elem()))
+        lines.append("A[%d, %d] = %s" % (k0, rnd.randint(0, shape[1] - 1), elem()))
+        lines.append("r%d = A[%d][%d] + A[%s, %s] + 0" % (nres, k0, rnd.randint(0, shape[1] - 1), index(0), index(1)))
+        nres += 1
+    if rnd.random() < 0.2:
+        # three dimensions: a[i, j, k] with secret and public indices
+        kinds.add("3d")
+        dims = (rnd.randint(1, 2), rnd.randint(1, 3), rnd.randint(2, 3))
+        lines.append("Q = Array([%s])" % ", ".join("Array([%s])" % ", ".join("Array([%s])" % ", ".join(elem() for _ in range(dims[2])) for _ in range(dims[1])) for _ in range(dims[0])))
+
+        def qidx(d):
+            if rnd.random() < 0.6:
+                name = inp(rnd.randint(0, dims[d] - 1))
+                idx_slots.append((len(inputs) - 1, dims[d]))
+                return name
+            return str(rnd.randint(0, dims[d] - 1))
+        lines.append("r%d = Q[%s, %s, %s] + 0" % (nres, qidx(0), qidx(1), qidx(2)))
+        nres += 1
+        lines.append("Q[%s, %s, %s] = %s" % (qidx(0), qidx(1), qidx(2), elem()))
+        lines.append("r%d = Q[%s][%s][%s] + Q[%s, %s][%s] + 0" % (nres, qidx(0), qidx(1), qidx(2), qidx(0), qidx(1), qidx(2)))
+        nres += 1
     if two_d and rnd.random() < 0.4:
         kinds.add("row-view")
         lines.append("row = A[%s]" % index(0))
@@ -210,6 +236,19 @@ def worker(job):
                 R.count("trace_pairs_compared")
                 if r1cs.canon_trace(out.snap) != t0:
                     R.violation("trace-depends-on-index", "canonical trace differs between index vectors", src=src, inputs_a=completed[0][0], inputs_b=ins, bl=bl, p=p)
+        # with checks off, an out-of-range (also negative) index must still emit the very same constraint system
+        if idx_slots and completed:
+            pos, lim = rnd.choice(idx_slots)
+            ins = list(inputs)
+            ins[pos] = rnd.choice([lim, lim + 2, -1, -lim, -lim - 1])
+            out = G.run_api(prog, ins, N, modulus=p, chunks=chunks, ignore=True)
+            if out.exc is None:
+                R.count("trace_pairs_compared")
+                R.count("out_of_range_unchecked_traces_compared")
+                R.case(cell="%s|%s|out-of-range-unchecked" % (shape_cls, kcell), key=(src, tuple(ins), "ignore"))
+                if r1cs.canon_trace(out.snap) != r1cs.canon_trace(completed[0][1].snap):
+                    R.violation("trace-depends-on-index", "canonical trace for the out-of-range index %d (checks off) differs from the in-range one" % ins[pos],
+                                src=src, inputs_a=completed[0][0], inputs_b=ins, bl=bl, p=p)
         # out-of-range index: must raise with checks on
         if idx_slots:
             pos, lim = rnd.choice(idx_slots)
